@@ -79,6 +79,7 @@ pub fn run_case(case: &[u8]) -> String {
             16 => crate::master::case_master(&mut rd),
             18 => crate::settings::case_settings(&mut rd),
             20 => crate::query::case_quake(&mut rd),
+            22 => crate::query::case_unreal2(&mut rd),
             _ => Err(()),
         }
     }));
